@@ -62,6 +62,14 @@ RECURSIVE MapFold(_, _, _, _, _, _)
 RECURSIVE AoHFold(_, _, _, _, _)
 RECURSIVE MergeIntoFirst(_, _, _, _, _, _)
 
+\* the mode that _merge_dicts looks up for a value present on both sides (hash / set / AoH mode, else a per-path rule)
+EffMode(val, cfg, k) == LET rule == RuleFor(cfg, k) IN
+  IF val.k = "map" THEN (IF rule = "" THEN cfg.hashes ELSE rule)
+  ELSE IF val.k = "set" THEN (IF rule = "" THEN cfg.sets ELSE rule)
+  ELSE IF IsAoHTree(val) THEN (IF rule = "" THEN cfg.aoh ELSE rule)
+  ELSE rule
+ShortCircuits(val, cfg, k) == EffMode(val, cfg, k) \in {"left", "right"}
+
 \* ---- hashes: ordered insertion of new keys (the buffer rule of _merge_dicts) ----
 \* st = [m, buf, pos, ok, info]
 MapFold(st, r, j, cfg, dummy1, dummy2) ==
@@ -76,15 +84,17 @@ MapFold(st, r, j, cfg, dummy1, dummy2) ==
           cur == ValOf(flushed.m, kr)
           mv == MergeValAt(cur, val, cfg, kr.v)
           at == CHOOSE x \in KeyPosT(flushed.m, kr) : TRUE
-      IN IF ~mv.ok THEN [st EXCEPT !.ok = FALSE]
-         ELSE MapFold([m |-> [flushed.m EXCEPT !.kids[at] = mv.tr], buf |-> <<>>, pos |-> flushed.pos + 1, ok |-> TRUE,
+          \* merger.py:177-199: a left / right mode `continue`s past the `buffer_pos += 1` at the foot of the loop
+          step == IF ShortCircuits(val, cfg, kr.v) THEN 0 ELSE 1
+      IN IF ~mv.ok THEN [st EXCEPT !.ok = FALSE, !.info = @ \/ mv.info]
+         ELSE MapFold([m |-> [flushed.m EXCEPT !.kids[at] = mv.tr], buf |-> <<>>, pos |-> flushed.pos + step, ok |-> TRUE,
                        info |-> st.info \/ mv.info], r, j + 1, cfg, dummy1, dummy2)
     ELSE MapFold([st EXCEPT !.buf = Append(@, [k |-> kr, v |-> val]), !.pos = @ + 1], r, j + 1, cfg, dummy1, dummy2)
 
 MergeMaps(l, r, cfg) ==
   IF l.k # "map" THEN MErr
   ELSE LET st == MapFold([m |-> l, buf |-> <<>>, pos |-> 0, ok |-> TRUE, info |-> FALSE], r, 1, cfg, 0, 0) IN
-    IF ~st.ok THEN MErr
+    IF ~st.ok THEN [MErr EXCEPT !.info = st.info]
     ELSE [ok |-> TRUE, info |-> st.info,
           tr |-> [st.m EXCEPT !.keys = @ \o [i \in 1..Len(st.buf) |-> st.buf[i].k],
                               !.kids = @ \o [i \in 1..Len(st.buf) |-> st.buf[i].v]]]
@@ -102,11 +112,16 @@ MergeSimple(l, r, cfg) ==
 
 \* ---- Arrays-of-Hashes ----
 \* deep: merge the record into the first left-hand record with an equal identity value, else append
+\* Identity values are compared after Nodes.tagless_value / typed_value (merger.py:391-404), which reads "1" as 1
+\* and lets True equal 1: the documentation says "identity key", nothing about typed look-alikes.  A comparison
+\* between scalars of different types, or with a non-scalar identity value, is informational.
+IdOdd(a, b) == a.k # "s" \/ b.k # "s" \/ a.t # b.t
+MixedIds(kids, ele, idk) == \E j \in 1..Len(kids) : kids[j].k = "map" /\ HasKeyT(kids[j], idk) /\ IdOdd(ValOf(kids[j], idk), ValOf(ele, idk))
 MergeIntoFirst(kids, j, ele, idk, cfg, dummy) ==
   IF j > Len(kids) THEN [ok |-> TRUE, kids |-> Append(kids, ele), info |-> FALSE]
   ELSE IF kids[j].k = "map" /\ HasKeyT(kids[j], idk) /\ TEq(ValOf(kids[j], idk), ValOf(ele, idk)) THEN
        LET mm == MergeMaps(kids[j], ele, cfg) IN
-       IF ~mm.ok THEN [ok |-> FALSE, kids |-> kids, info |-> FALSE]
+       IF ~mm.ok THEN [ok |-> FALSE, kids |-> kids, info |-> mm.info]
        ELSE [ok |-> TRUE, kids |-> [kids EXCEPT ![j] = mm.tr], info |-> mm.info]
   ELSE MergeIntoFirst(kids, j + 1, ele, idk, cfg, dummy)
 
@@ -114,10 +129,10 @@ AoHFold(st, r, j, idk, cfg) ==   \* st = [kids, ok, info]
   IF j > Len(r.kids) \/ ~st.ok THEN st
   ELSE LET ele == r.kids[j] IN
     IF cfg.aoh = "deep" THEN
-      (IF ele.k # "map" THEN [st EXCEPT !.info = TRUE, !.ok = FALSE]      \* mixed list: not a record
+      (IF ele.k # "map" THEN [st EXCEPT !.ok = FALSE]                     \* mixed list: not a record, no identity key
        ELSE IF ~HasKeyT(ele, idk) THEN [st EXCEPT !.ok = FALSE]
        ELSE LET m == MergeIntoFirst(st.kids, 1, ele, idk, cfg, 0) IN
-            AoHFold([kids |-> m.kids, ok |-> m.ok, info |-> st.info \/ m.info], r, j + 1, idk, cfg))
+            AoHFold([kids |-> m.kids, ok |-> m.ok, info |-> st.info \/ m.info \/ MixedIds(st.kids, ele, idk)], r, j + 1, idk, cfg))
     ELSE IF cfg.aoh = "unique" THEN
       AoHFold([st EXCEPT !.kids = IF \E x \in 1..Len(st.kids) : TEq(st.kids[x], ele) THEN @ ELSE Append(@, ele)], r, j + 1, idk, cfg)
     ELSE AoHFold([st EXCEPT !.kids = Append(@, ele)], r, j + 1, idk, cfg)
